@@ -72,6 +72,9 @@ class FFCXBackendSymbols:
 
         self.original_constant_offsets = original_constant_offsets
 
+        # Numbering of the domains whose Jacobian is used, in order of first use
+        self._domain_numbers = {}
+
         # Keep tabs on tables, so the symbols can be reused
         self.quadrature_weight_tables = {}
         self.element_tables = {}
@@ -138,10 +141,11 @@ class FFCXBackendSymbols:
 
     def J_component(self, mt):
         """Jacobian component."""
-        return L.Symbol(
-            format_mt_name(f"J{ufl.domain.extract_unique_domain(mt.expr).ufl_id()}", mt),
-            dtype=L.DataType.REAL,
-        )
+        # Number the domain locally: ufl_id() is a process-wide counter, which made the
+        # generated text depend on how many meshes had been created before
+        domain = ufl.domain.extract_unique_domain(mt.expr)
+        number = self._domain_numbers.setdefault(domain, len(self._domain_numbers))
+        return L.Symbol(format_mt_name(f"J{number}", mt), dtype=L.DataType.REAL)
 
     def domain_dof_access(self, dof, component, gdim, num_scalar_dofs, restriction):
         """Domain DOF access."""
